@@ -136,6 +136,8 @@ def classify(prop, results, seed, allow_shrink=True):
                                          "of this script; the specification oracle found no input on which the property itself fails"
                                          % (m["index"], m["op"]),
                                "mismatch": m, "script": r["script"], "metas": r.get("metas"), "groups": r.get("groups")})
+    # the violations that come with a failing input first: they are what a reader needs
+    violations.sort(key=lambda v: 0 if v.get("failing_input") else 1)
     return violations[:5], known
 
 
@@ -1539,7 +1541,7 @@ def c16_runner(prop, tier, seed, replay):
     # a rule installation against a batch that touches the anchor node itself (new sibling stems of the anchor,
     # new children, links to the anchor when it is a page): the installer holds a copy of that node across its yields
     rng = random.Random(seed + 5)
-    nrule = 400 if tier == "thorough" else 80
+    nrule = 400 if tier == "thorough" else 120
     for _ in range(nrule):
         host = rng.choice([b"site", b"a", b"twitter"])
         anchor = b"s:http|h:com|h:" + host + b"|" + (b"p:blog|" if rng.random() < 0.3 else b"")
